@@ -2,6 +2,7 @@ package main
 
 import (
 	"fmt"
+	"verifsim/gen"
 
 	"verifsim/parsersim"
 )
@@ -24,7 +25,15 @@ var propC16 = &pProp{
 	},
 	mkReqs: func(r *rng, gp *genParser, p pParams) []*parsersim.Request {
 		var reqs []*parsersim.Request
-		for ii, in := range drawInputs(r, gp.G, p.inputs, 40) {
+		maxLen := 40
+		for _, rl := range gp.G.Rules {
+			gen.Walk(rl.Expr, func(e *gen.Expr) {
+				if e.Kind == gen.Lit && len(e.Text) >= 10 {
+					maxLen = 240 // many bytes per expression: long inputs for few expressions
+				}
+			})
+		}
+		for ii, in := range drawInputs(r, gp.G, p.inputs, maxLen) {
 			if r.chance(1, 4) {
 				// bytes that are not UTF-8: every one adds an 'invalid encoding' error
 				// unless AllowInvalidUTF8 is on; the budget error must still come last
@@ -37,7 +46,6 @@ var propC16 = &pProp{
 				if r.chance(1, 4) {
 					o.UseReader = true // the input may be treated differently when it comes from a reader
 				}
-				o.UseReader = false
 				if r.chance(1, 3) {
 					o.Stats = false // the parser's own default Stats value is the clock
 				}
